@@ -329,7 +329,9 @@ class BTest:
     def __init__(self, cmp, kind, strict, point, end, end_at, sgn, tol, tol_at):
         self.cmp, self.kind, self.strict, self.point = cmp, kind, strict, point
         self.end, self.end_at, self.sgn, self.tol, self.tol_at = end, end_at, sgn, tol, tol_at
-        self.neg = False        # True: written as the complementary in-bounds comparison under all()
+        self.neg = False        # True: written as the complementary in-bounds comparison (all(), min() >= ...)
+        self.reduced = False    # True: the batch is reduced with min()/max() before the comparison
+        self.wrong_red = None   # (reduction, side) when the minimum is compared with the upper end or vice versa
 
 
 def _decomp(ctx, b, at, depth=0):
@@ -388,16 +390,45 @@ def bounds_tests(ctx, test, at):
         neg = _reducer(c) == 'all'
         if neg:
             op = _COMPLEMENT[op]        # all(p >= lo) == not any(p < lo)
+        red, inner = _minmax(point)
         d = _decomp(ctx, bound, at)
         if d is None or d == 'odd':
             odd.append((c, f'bound `{astx.src(bound)}` is not of the form grid_end, grid_end + tol or grid_end - tol'))
             continue
         end, end_at, sgn, tol, tol_at = d
+        wrong_red = None
+        if red is not None and not neg:
+            # min(p) < lo == any(p < lo), max(p) > hi == any(p > hi); min(p) >= lo / max(p) <= hi are their negations.
+            # Which end is meant is read from the bound, the reduction must then be the matching one.
+            ek = ctx.idx_kind(end.slice, end.value, end_at)
+            side = 'low' if ek == ('first', 0) else 'high' if ek == ('last', 0) else \
+                ('low' if op in (ast.Lt, ast.LtE) else 'high')
+            if red != ('min' if side == 'low' else 'max'):
+                wrong_red = (red, side)
+            elif (op in (ast.Lt, ast.LtE)) != (side == 'low'):
+                neg = True
+                op = _COMPLEMENT[op]
+            point = inner
         bt = BTest(c, 'low' if op in (ast.Lt, ast.LtE) else 'high', op in (ast.Lt, ast.Gt), point,
                    end, end_at, sgn, tol, tol_at)
         bt.neg = neg
+        bt.reduced = red is not None
+        bt.wrong_red = wrong_red
         good.append(bt)
     return good, odd
+
+
+def _minmax(e):
+    """('min'|'max', array expression) when e is np.min(a) / np.amax(a) / a.min() / min(a) ..., else (None, e)."""
+    if isinstance(e, ast.Call) and not e.keywords:
+        nm = astx.callee_attr(e)
+        kind = {'min': 'min', 'amin': 'min', 'nanmin': 'min', 'max': 'max', 'amax': 'max', 'nanmax': 'max'}.get(nm)
+        if kind:
+            if len(e.args) == 1 and (isinstance(e.func, ast.Name) or astx.path(e.func.value) in ('np', 'numpy')):
+                return kind, e.args[0]
+            if not e.args and isinstance(e.func, ast.Attribute):
+                return kind, e.func.value
+    return None, e
 
 
 def _reducer(c):
@@ -461,7 +492,9 @@ def oob_formula(test, good):
                     return None
                 return (lambda L, H: not L) if low else (lambda L, H: not H)
             if bt.neg:
-                return None
+                if not bt.reduced:
+                    return None
+                return (lambda L, H: not L) if low else (lambda L, H: not H)
             return (lambda L, H: L) if low else (lambda L, H: H)
         return None
     return build(test)
@@ -610,6 +643,8 @@ def eps(repo, out):
 def _reduced(c):
     """True if the elementwise comparison c (possibly combined with | or &) is reduced by any()/all()."""
     e = c
+    if isinstance(c, ast.Compare) and (_minmax(c.left)[0] or _minmax(c.comparators[0])[0]):
+        return True
     while isinstance(getattr(e, '_parent', None), ast.BinOp) and isinstance(e._parent.op, (ast.BitOr, ast.BitAnd)):
         e = e._parent
     return _reducer(e) is not None
@@ -749,6 +784,12 @@ def bounds(repo, out):
             if ek != want:
                 problems.append((bt.cmp, f'a point is rejected when it is {"below" if bt.kind == "low" else "above"} '
                                  f'`{astx.src(bt.end)}`, which is not the {want[0]} grid coordinate of the axis', 'end'))
+            if bt.wrong_red:
+                red, side = bt.wrong_red
+                problems.append((bt.cmp, f'the {"maximum" if red == "max" else "minimum"} of the requested coordinates is '
+                                 f'compared with the {"lower" if side == "low" else "upper"} end `{astx.src(bt.end)}`: a '
+                                 f'batch is only rejected when all of its points lie {"below" if side == "low" else "above"} '
+                                 'the grid, a single outlier among in-bounds points is extrapolated silently', 'reduction'))
             axis = ctx.expand(bt.end.value, bt.end_at)
             if not (isinstance(axis, ast.Subscript) and astx.path(axis.value) == 'self.grid' and
                     isinstance(axis.slice, ast.Name) and axis.slice.id == ivar):
@@ -1308,6 +1349,59 @@ def _strip(e, mask=None):
 _DUMP_SRC = {}
 
 
+def inline_helper(repo, fn, e, depth=0):
+    """If e calls a helper of the same module (or a method of the same class through self.) whose body is a single
+    `return <expr>`, return <expr> with the parameters replaced by the arguments (recursively); else e."""
+    if depth > 3 or not isinstance(e, ast.Call) or any(isinstance(a, ast.Starred) for a in e.args) or \
+            any(k.arg is None for k in e.keywords):
+        return e
+    mod = repo.module(fn.rel)
+    target = None
+    if isinstance(e.func, ast.Name):
+        target = mod.funcs.get(e.func.id)
+        skip = 0
+    elif isinstance(e.func, ast.Attribute) and astx.path(e.func.value) == 'self' and fn.cls is not None:
+        target = mod.funcs.get(f'{fn.cls.name}.{e.func.attr}')
+        skip = 1
+    if target is None:
+        return e
+    body = astx.strip_doc(target.node.body)
+    a = target.node.args
+    if len(body) != 1 or not isinstance(body[0], ast.Return) or body[0].value is None or a.vararg or a.kwarg or \
+            a.kwonlyargs or a.posonlyargs:
+        return e
+    params = [x.arg for x in a.args][skip:]
+    if len(e.args) > len(params):
+        return e
+    binding = dict(zip(params, e.args))
+    for k in e.keywords:
+        if k.arg not in params or k.arg in binding:
+            return e
+        binding[k.arg] = k.value
+    defaults = dict(zip(params[len(params) - len(a.defaults):], a.defaults)) if a.defaults else {}
+    for p_ in params:
+        if p_ not in binding:
+            if p_ not in defaults:
+                return e
+            binding[p_] = defaults[p_]
+    # only parameters (and module-level names such as np) may occur in the returned expression
+    free = astx.names(body[0].value) - set(params)
+    if any(n_ not in mod.imports and n_ not in mod.funcs and n_ not in dir(__builtins__) and
+           n_ not in ('abs', 'len', 'max', 'min') for n_ in free):
+        return e
+
+    class Sub(ast.NodeTransformer):
+        def visit_Name(self, n):
+            if n.id in binding:
+                return ast.parse(ast.unparse(binding[n.id]), mode='eval').body
+            return n
+    new = Sub().visit(ast.parse(ast.unparse(body[0].value), mode='eval').body)
+    for n in ast.walk(new):
+        for ch in ast.iter_child_nodes(n):
+            ch._parent = n
+    return inline_helper(repo, target, new, depth + 1) if isinstance(new, ast.Call) else new
+
+
 def _guard_expr(test):
     """E when test is `E > eps` / `E >= eps` (eps: a name or option called eps), else None."""
     if isinstance(test, ast.Compare) and len(test.ops) == 1:
@@ -1387,13 +1481,18 @@ def zeroguard(repo, out):
         # all zero tests of this function:  E > eps  (as an `if` or inside np.where)
         guards = {}         # dump(E) -> source
         masks = {}          # id(def node) -> (mask name, E)
+        iftests = {}        # id(If) -> E
         for st in astx.walk_stmts(fn.node.body):
             if isinstance(st, ast.If):
-                e = _guard_expr(st.test)
+                e = _guard_expr(inline_helper(repo, fn, st.test))
                 if e is not None:
                     guards[astx.dump(e)] = astx.src(e)
+                    iftests[id(st)] = e
             elif isinstance(st, ast.Assign) and len(st.targets) == 1 and isinstance(st.targets[0], ast.Name):
                 v = st.value
+                if isinstance(v, ast.Subscript):
+                    v = v.value
+                v = inline_helper(repo, fn, v)
                 if isinstance(v, ast.Subscript):
                     v = v.value
                 if isinstance(v, ast.Call) and (astx.call_name(v) or '').split('.')[-1] == 'where' and len(v.args) == 1:
@@ -1456,12 +1555,10 @@ def zeroguard(repo, out):
             # (ii) assignment directly inside `if E > eps:`
             par = getattr(st, '_parent', None)
             cur = st
-            while isinstance(par, ast.If) and _guard_expr(par.test) is None and cur in par.body:
+            while isinstance(par, ast.If) and id(par) not in iftests and cur in par.body:
                 cur, par = par, getattr(par, '_parent', None)      # nested `if compute_local_train:`
-            if isinstance(par, ast.If) and cur in par.body:
-                e = _guard_expr(par.test)
-                if e is not None:
-                    judge(st, e, None)
+            if isinstance(par, ast.If) and cur in par.body and id(par) in iftests:
+                judge(st, iftests[id(par)], None)
 
 
 # ========================================================================== C15.cachekey (SLOT)
@@ -2513,6 +2610,8 @@ _SEMI_LOW = ('                    if not self.extrapolate:\n'
 _AK = D + 'interp_akima.py'
 _AK_CACHE = ('        if query_idx not in self.coeffs:\n            self.coeffs[query_idx] = self.compute_coeffs(idx, extrap)\n'
              '        a, b, c, d = self.coeffs[query_idx]')
+_AK_HELPER = ('def _safe_idx(denom, eps):\n    \"\"\"Entries that are safe to divide by.\"\"\"\n'
+              '    return np.where(np.atleast_1d(denom) > eps)\n\n\n')
 _CHECK_BODY = (
     '            for i, p in enumerate(xi.T):\n'
     '                if np.isnan(p).any():\n'
@@ -2598,6 +2697,18 @@ selftest(
         '                err = OutOfBoundsError("One of the requested xi is out of bounds",'), 'C15.bounds'),
     Mutant('guard-clause-evaluated', _I, _CHECK_BODY, _GUARD_BODY.replace('eps = 1e-14 * abs(upper)', 'eps = 1e-14 * upper'),
            'C15.exact_slinear'),
+    Mutant('bounds-max-vs-lower-seed', _I, _BT,
+           'if np.max(p) < self.grid[i][0] - eps or np.max(p) > self.grid[i][-1] + eps:', 'C15.bounds'),
+    Mutant('bounds-min-vs-upper', _I, _BT,
+           'if p.min() < self.grid[i][0] - eps or p.min() > self.grid[i][-1] + eps:', 'C15.bounds'),
+    Mutant('bounds-max-vs-lower-seen-by-evaluation', _I, _BT,
+           'if np.max(p) < self.grid[i][0] - eps or np.max(p) > self.grid[i][-1] + eps:', 'C15.exact_slinear'),
+    Mutant('bounds-minmax-inbounds-or', _I, _CHECK_BODY, _GUARD_BODY.replace(
+        'if not (np.any(p < lower - eps) or np.any(p > upper + eps)):',
+        'if np.min(p) >= lower - eps or np.max(p) <= upper + eps:'), 'C15.bounds'),
+    Mutant('zeroguard-helper-wrong-argument', _AK, '        jj2 = np.where(np.atleast_1d(w32 + w4) > eps)',
+           '        jj2 = _safe_idx(w2 + w31, eps)', 'C15.zeroguard',
+           also=[(_AK, 'class InterpAkima(InterpAlgorithm):', _AK_HELPER + 'class InterpAkima(InterpAlgorithm):')]),
     Mutant('bounds-upper-only', _I, _BT, 'if np.any(p > self.grid[i][-1] + eps):', 'C15.bounds'),
     Mutant('semi-nonstrict-low', _A, '                if x < grid[0]:\n                    if not self.extrapolate:',
            '                if x <= grid[0]:\n                    if not self.extrapolate:', 'C15.bounds'),
@@ -2846,6 +2957,14 @@ selftest(
            '        xnew = self._interpolate(x[:1])\n\n        if compute_derivative:', 'C15.entry'),
     # ---------------------------------------------------------------- twins
     Twin('twin-flag-branches-swapped', _I, _CHECK_BLOCK, _CHECK_BLOCK_FLIPPED),
+    Twin('twin-minmax-reduction', _I, _BT,
+         'if np.min(p) < self.grid[i][0] - eps or p.max() > self.grid[i][-1] + eps:'),
+    Twin('twin-minmax-inbounds-guard', _I, _CHECK_BODY, _GUARD_BODY.replace(
+        'if not (np.any(p < lower - eps) or np.any(p > upper + eps)):',
+        'if np.min(p) >= lower - eps and np.max(p) <= upper + eps:')),
+    Twin('twin-zeroguard-helper', _AK, '        jj2 = np.where(np.atleast_1d(w32 + w4) > eps)', '        jj2 = _safe_idx(w32 + w4, eps=eps)',
+         also=[(_AK, '        jj1 = np.where(np.atleast_1d(w2 + w31) > eps)', '        jj1 = _safe_idx(w2 + w31, eps)'),
+               (_AK, 'class InterpAkima(InterpAlgorithm):', _AK_HELPER + 'class InterpAkima(InterpAlgorithm):')]),
     Twin('twin-rebuild-comprehension', MMS, "        for name, train_data in self.training_outputs.items():\n"
          "            self.interps[name] = InterpND(method=interp_method,\n"
          "                                          points=self.inputs, values=train_data,\n"
